@@ -64,6 +64,8 @@ func init() {
 	}
 }
 
+var c32T0 = time.Now()
+
 var c32Scratch = fmt.Sprintf("/dev/shm/verif.c32.%d", os.Getpid())
 
 const (
@@ -80,22 +82,27 @@ type c32Ask struct {
 }
 
 type c32Recorder struct {
-	mu   sync.Mutex
-	asks []c32Ask
+	mu    sync.Mutex
+	asks  []c32Ask
+	grant func(db, meas string) bool // nil: db1.m1 only (phase 1); phase 2 grants a small set
 }
 
 func (r *c32Recorder) IsRBACEnabled() bool { return true }
 
 func (r *c32Recorder) CheckPermission(req *auth.PermissionCheckRequest) *auth.PermissionCheckResult {
-	ok := req.Permission == "write" && req.Database == c32DB && req.Measurement == c32Meas &&
-		req.TokenInfo != nil && req.TokenInfo.ID == c32TokenID
+	ok := req.Permission == "write" && req.TokenInfo != nil && req.TokenInfo.ID == c32TokenID
+	if r.grant != nil {
+		ok = ok && r.grant(req.Database, req.Measurement)
+	} else {
+		ok = ok && req.Database == c32DB && req.Measurement == c32Meas
+	}
 	r.mu.Lock()
 	r.asks = append(r.asks, c32Ask{req.Database, req.Measurement, req.Permission, ok})
 	r.mu.Unlock()
 	if ok {
 		return &auth.PermissionCheckResult{Allowed: true, Source: "rbac"}
 	}
-	return &auth.PermissionCheckResult{Allowed: false, Source: "denied", Reason: "C32 recorder grants write on db1.m1 only"}
+	return &auth.PermissionCheckResult{Allowed: false, Source: "denied", Reason: "C32 recorder: not in the granted set"}
 }
 
 func (r *c32Recorder) CheckPermissionsBatch(reqs []*auth.PermissionCheckRequest) []*auth.PermissionCheckResult {
@@ -1166,12 +1173,21 @@ func verifC32() {
 		os.RemoveAll(c32Scratch)
 		os.Exit(0)
 	}
+	if pr := os.Getenv("C32_SEQ_PROBE"); pr != "" {
+		c32SeqProbe(pr)
+		os.RemoveAll(c32Scratch)
+		os.Exit(0)
+	}
 	if pf := os.Getenv("C32_PROF"); pf != "" {
 		f, _ := os.Create(pf)
 		pprof.StartCPUProfile(f)
 		defer pprof.StopCPUProfile()
 	}
 	cases := c32Enumerate(tier)
+	devOnlySeq := os.Getenv("C32_ONLY") == "seq" // development aid: skip phase 1 (the run is then reported as not exhaustive)
+	if devOnlySeq {
+		cases = nil
+	}
 	if run.Seed != 0 { // the seed only permutes the order in which the (whole) space is visited
 		s := uint64(run.Seed)*2654435761 + 1
 		for i := len(cases) - 1; i > 0; i-- {
@@ -1279,9 +1295,15 @@ func verifC32() {
 		}()
 	}
 	wg.Wait()
+	ph1 := time.Since(c32T0)
+	// phase 2: request sequences on one reused connection, flush after the later requests (zz_verif_c32_seq.go)
+	sq := c32SeqPhase(run)
+	ph2 := time.Since(c32T0) - ph1
+	run.Coverage["phase_wall_seconds"] = fmt.Sprintf("phase1=%.1f phase2=%.1f", ph1.Seconds(), ph2.Seconds())
+	fmt.Printf("C32 wall: phase1=%.1fs phase2=%.1fs\n", ph1.Seconds(), ph2.Seconds())
 
-	run.Coverage["evaluations"] = evals.Load()
-	run.Coverage["distinct_nontrivial"] = nontrivial.Load()
+	run.Coverage["evaluations"] = evals.Load() + sq.evals
+	run.Coverage["distinct_nontrivial"] = nontrivial.Load() + sq.nontrivial
 	ab := func(l []string) string { // "" is "absent" in the header / query domains
 		o := make([]string, len(l))
 		for i, x := range l {
@@ -1292,18 +1314,32 @@ func verifC32() {
 		}
 		return strings.Join(o, ",")
 	}
-	run.Coverage["rule"] = fmt.Sprintf("full product, per endpoint (%d endpoints: msgpack, 3 line-protocol, import lp/csv/parquet, tle write/import), of payload template "+
+	run.Coverage["rule"] = fmt.Sprintf("PHASE 1 (single requests): full product, per endpoint (%d endpoints: msgpack, 3 line-protocol, import lp/csv/parquet, tle write/import), of payload template "+
 		"(msgpack, %d templates: single typed-columnar / generic-columnar / row item for measurement m1, m2 and the empty string, batch[...] and top-level array[...] of 11 item lists mixing "+
 		"columnar/row items and allowed m1 / forbidden m2 / empty measurement; line protocol, %d templates: lines for [m1] [m1,m1] [m1,m2] [m2,m1] [m2] [\"\"] [m1,\"\"]; csv, parquet, tle: one file) "+
 		"x routing-like name {none} + {%s} x every position the template offers (column / tag / field / extra key inside the item (for m: a duplicate key, before and after the genuine one) / "+
 		"extra key on the batch wrapper / extra multipart form field) x value {%s} x x-arc-database {%s} x db|bucket {<absent>,db1,db2} x org {<absent>,db2} x precision {%s} x "+
 		"measurement selector (query measurement / x-arc-measurement) {<absent>,m1,m2}, each dimension only where the endpoint reads it; every case = 1 request on a writer node that has "+
 		"buffered/logged/stored nothing yet + its replication entries applied on a fresh reader + its WAL recovered on a fresh node; non-trivial = carries a routing-like name or differs "+
-		"from the plain 'x-arc-database: db1, measurement m1' request of its endpoint (every vector is distinct by construction)",
+		"from the plain 'x-arc-database: db1, measurement m1' request of its endpoint (every vector is distinct by construction). "+sq.rule(),
 		len(c32EPs), len(c32MPTs), len(c32LPTs), strings.Join(c32Names, ","), strings.Join(c32Vals[:tier.nVals], ","), ab(c32Hdr[:tier.nHdr]), ab(c32PrecV[:tier.nPrec]))
-	run.Coverage["samples"] = samples.List()
-	run.Coverage["exhaustive"] = complete.Load()
-	run.Coverage["space_size"] = len(cases)
+	run.Coverage["samples"] = append(samples.List(), sq.samples...)
+	run.Coverage["exhaustive"] = complete.Load() && sq.complete && !devOnlySeq
+	run.Coverage["space_size"] = len(cases) + sq.space
+	run.Coverage["phase1_single_request_cases"] = evals.Load()
+	run.Coverage["phase2_sequences"] = sq.evals
+	run.Coverage["phase2_space_by_shape"] = sq.byKind
+	run.Coverage["phase2_max_buffer_sizes"] = sq.tier.bufs
+	run.Coverage["phase2_sequences_that_stored_rows"] = sq.stored
+	run.Coverage["phase2_sequences_with_rows_of_2+_requests"] = sq.multi
+	run.Coverage["phase2_sequences_with_rows_of_2+_requests_in_2+_databases"] = sq.crossDB
+	run.Coverage["phase2_sequences_with_flush_tasks_run_after_the_last_response"] = sq.pendingSeqs
+	run.Coverage["phase2_flush_tasks_run_after_the_last_response"] = sq.pendingTasks
+	run.Coverage["phase2_sequences_served_by_one_RequestCtx"] = sq.sameCtx
+	run.Coverage["phase2_consecutive_header_values_at_same_address"] = fmt.Sprintf("%d of %d", sq.sameHdr, sq.hdrPairs)
+	run.Coverage["phase2_distinct_outcomes"] = sq.outcomes
+	run.Coverage["phase2_status_by_endpoint"] = sq.status
+	run.Coverage["phase2_systems_built"] = c32SSysruns.Load()
 	run.Coverage["cases_that_stored_rows"] = stored.Load()
 	run.Coverage["distinct_outcomes"] = len(outcomes)
 	run.Coverage["status_by_endpoint"] = statusByEP
@@ -1314,7 +1350,14 @@ func verifC32() {
 	}
 	fmt.Printf("C32 cases=%d evaluated=%d nontrivial=%d stored-rows=%d distinct-outcomes=%d rows-disappear(info)=%d systems=%d exhaustive=%v\n",
 		len(cases), evals.Load(), nontrivial.Load(), stored.Load(), len(outcomes), dropped.Load(), c32Sysruns.Load(), complete.Load())
-	run.Assume("the caller is an authenticated token (token_info in the fiber context, as the global auth middleware leaves it) and RBAC is the recording checker: write on db1.m1 granted, everything else denied")
+	fmt.Printf("C32 sequences=%d %v evaluated=%d stored-rows=%d rows-of-2+-requests=%d (in 2+ databases=%d) with-flush-after-last-response=%d (tasks=%d) one-RequestCtx=%d header-at-same-address=%d/%d distinct-outcomes=%d systems=%d exhaustive=%v\n",
+		sq.space, sq.byKind, sq.evals, sq.stored, sq.multi, sq.crossDB, sq.pendingSeqs, sq.pendingTasks, sq.sameCtx, sq.sameHdr, sq.hdrPairs, sq.outcomes, c32SSysruns.Load(), sq.complete)
+	if sq.outcomes < 4 {
+		fmt.Printf("C32 vacuity warning: only %d distinct sequence outcomes\n", sq.outcomes)
+	}
+	run.Assume("the caller is an authenticated token (token_info in the fiber context, as the global auth middleware leaves it) and RBAC is the recording checker: write on db1.m1 granted, everything else denied (phase 2: {db1,db2,default}.{m1,m2} granted)")
+	run.Assume("phase 2 judges the store of the serving node only (no WAL attached: the WAL copies database and payload synchronously inside the handler, which phase 1 follows per request); the flush worker is held in the storage backend for the whole sequence - the worst admissible schedule of a slow object store - instead of racing with the requests")
+	run.Assume("phase 2 attributes a stored row to its request by its numeric time value; string values of a row are not compared (row contents are C01/C02's subject)")
 	run.Assume("'the database the request named' = x-arc-database if present, else the db/bucket query parameter the endpoint reads, else 'default' where the endpoint has that fallback (imports have none)")
 	run.Assume("replicated leg: the entries of the writer's WAL replication hook are handed unchanged to Receiver.applyEntry (transport, HMAC and ordering are C24's subject); the reader has no local WAL")
 	run.Assume("rows that a routing-like name makes DISAPPEAR (dropped column or row) are not a redirection; they are counted (info_...) and left to C05/C02")
